@@ -1,18 +1,24 @@
 (** C05  Identities are unique, in range, and held only by placed instances.
 
-    Proved (Sched/InvIdent.v, on top of the primitive-transition decomposition of Sched/Steps.v), for all
-    histories of events and cycles and all identity choices (the set.pop() nondeterminism):
+    Proved on the model, for all histories of events and cycles and all identity choices (the set.pop()
+    nondeterminism):
       C05_invariant / C05_cycle   the identity invariant holds in every reachable state / is kept by a cycle;
       C05_unique                  within a group no two instances hold the same identity;
       C05_offer_sound             every identity on offer is in [0, count) and is not held by anybody
                                   (so whatever the first instance in the queue acquires is really free);
-      C05_held_nonneg             held identities are non-negative.
-    Partial: "after a cycle every held identity is below the current count", "a placed instance of a group holds one"
-    and "an instance that is not placed holds none" are end-of-cycle facts of the placement loop; they are decided
-    by the E-cell correspondence and the C05 oracle (the unchanged tree violated the last one in three ways, repaired
-    by the fix: commits 05b28ff, 892e28c, d5e1071 - see known_findings.json). *)
+      C05_held_nonneg             held identities are non-negative;
+      C05_end_of_cycle            after EVERY cycle of EVERY history: an instance that is not placed holds no
+                                  identity, a placed instance of a group holds one, and every held identity is in
+                                  [0, count) of its group's current size  (Sched/TurnP.v per-turn specification,
+                                  Sched/CycleP.v loop and partition composition, Sched/IdRange.v, Sched/InvAlloc.v
+                                  allocation-tree invariant, Sched/InvIdRec.v, Sched/Reach.v);
+      C05_cycle_spec              the same for one cycle from any state satisfying the invariants (Sched/CycleP.v).
+    The proof attempt of C05_end_of_cycle for instances flagged for renewal is what exposed the defect repaired
+    by fix: 7bb39c9 (a renewal whose restore is refused kept the identity of a pending instance); earlier defects of
+    the same property: 05b28ff, 892e28c, d5e1071 (known_findings.json). *)
 From Coq Require Import ZArith QArith List Bool.
-From TM Require Import Sched.Vec Sched.Types Sched.Tree Sched.Cycle Sched.Events Sched.MapsP Sched.Steps Sched.InvIdent.
+From TM Require Import Sched.Vec Sched.Types Sched.Tree Sched.Cycle Sched.Events Sched.MapsP Sched.Steps Sched.InvAcct Sched.InvIdent
+                       Sched.TurnP Sched.CycleP Sched.KeepP Sched.Reach.
 Import ListNotations.
 Open Scope Z_scope.
 
@@ -46,6 +52,33 @@ Theorem C05_held_nonneg : forall c a g i, Ident c -> In a (c_apps c) -> holds a 
 Proof. intros c a g i HI Ha Hh. exact (id_held_nonneg _ HI _ _ _ _ (In_get_app _ _ (id_names _ HI) Ha) Hh). Qed.
 Print Assumptions C05_held_nonneg.
 
+Theorem C05_end_of_cycle : forall dim root level ops ch,
+  wf_ops_all (init_cell dim root level) ops ->
+  let c' := step (run (init_cell dim root level) ops) (OSchedule ch) in
+  forall x a', get_app x (c_apps c') = Some a' ->
+    (a_server a' = None -> a_group a' = None \/ a_identity a' = None) /\
+    (a_server a' <> None -> a_group a' = None \/ a_identity a' <> None) /\
+    (forall g i grp, a_group a' = Some g -> a_identity a' = Some i -> aget g (c_groups c') = Some grp ->
+                     0 <= i < g_count grp).
+Proof.
+  intros dim root level ops ch Hwf c' x a' Ha'.
+  destruct (end_of_cycle_identities _ ch (Good_run ops _ Hwf (Good_init dim root level)) x a' Ha') as (H1 & H2 & H3).
+  split; [exact H1|]. split; [exact H2|]. intros g i grp Hg Hi Hgrp.
+  apply (H3 g i (g_count grp) (conj Hg Hi)). unfold gcount. fold c'. rewrite Hgrp. reflexivity.
+Qed.
+Print Assumptions C05_end_of_cycle.
+
+Theorem C05_cycle_spec : forall c ch, Acct c -> Ident c -> parts_wf c ->
+  forall x a, In x (part_apps (c_parts c)) -> get_app x (c_apps c) = Some a -> (a_server a <> None -> has_id a) ->
+  exists a', get_app x (c_apps (fst (fst (schedule c ch)))) = Some a' /\
+             (a_server a' = None -> no_id a') /\ (a_server a' <> None -> has_id a').
+Proof.
+  intros c ch HA HI Hwf x a Hin Ha Hid.
+  destruct (schedule_final c ch HA HI Hwf x a Hin Ha Hid) as (a' & Ha' & (_ & H1 & H2 & _)).
+  exists a'. split; [exact Ha'|]. split; assumption.
+Qed.
+Print Assumptions C05_cycle_spec.
+
 (** non-vacuity: a group of 2, three instances, shrink/grow between cycles, release and re-acquire *)
 Definition ex_a (n o : Z) (d : vec) : app :=
   mkApp n 1 d 3000 [] 0 0 None (Some 5000) false o None None None None false false false false (-1).
@@ -59,3 +92,5 @@ Example C05_nonvacuous :
 Proof. vm_compute. reflexivity. Qed.
 Example C05_nonvacuous_wf : wf_ops_id (init_cell 3 2000 1) ex_ops.
 Proof. cbn [wf_ops_id ex_ops wf_op_id]. repeat split; try (intros; reflexivity); try discriminate. Qed.
+Example C05_nonvacuous_wf_all : wf_ops_all (init_cell 3 2000 1) ex_ops.
+Proof. apply wf_ops_allb_sound. vm_compute. reflexivity. Qed.
